@@ -72,13 +72,15 @@ def _alarm(signum, frame):
 
 
 LIMIT = 20      # seconds per call; a call that does not return within the limit is reported as 'Timeout'
+LIMITS = {'separation': 900}     # bss_eval solves 512-tap filter systems: minutes per call on a loaded machine
 
 
 def run(fn, args, kw=None):
     """-> ('ok', value) | ('exc', class name, message)"""
     import signal
     old = signal.signal(signal.SIGALRM, _alarm)
-    signal.alarm(LIMIT)
+    limit = LIMITS.get(getattr(fn, '__module__', '').rsplit('.', 1)[-1], LIMIT)
+    signal.alarm(limit)
     try:
         with warnings.catch_warnings():
             warnings.simplefilter('ignore')
@@ -86,7 +88,7 @@ def run(fn, args, kw=None):
                 with np.errstate(all='ignore'):
                     return ('ok', fn(*args, **(kw or {})))
             except _Timeout:
-                return ('exc', 'Timeout', 'no result within %d s' % LIMIT)
+                return ('exc', 'Timeout', 'no result within %d s' % limit)
             except Exception as e:  # noqa
                 return ('exc', type(e).__name__, str(e)[:160])
     finally:
